@@ -907,6 +907,8 @@ def check_brent_safeguards(F, run, b, loop):
             return
         prev = sp.Abs(right - c_) if flag else sp.Abs(c_ - d_)
         for p in lps:
+            if not p.fell_through:
+                continue                      # the iteration was left (a convergence exit written inside the loop body): no step was taken
             env = {nm: p.interp.env.get(i) for i, nm in p.interp.names.items()}
             mf = env.get("mflag")
             if mf is sp.true or mf is True:
